@@ -580,7 +580,7 @@ fn main() {
     // combining marks, 2/3/4-byte encodings) in seven positions of a version, against eight probes
     let mut chars: Vec<char> = mc_core::chars::all().into_iter().filter(|c| !"-<>{}=".contains(*c)).collect();
     chars.extend(['\0', '\n', '\r']);
-    run.bound(format!("(e) {} characters x 7 version shapes x 8 probes x 4 operators x 2 placements; '-' and '=' in the bound only", chars.len()));
+    run.bound(format!("(e) {} characters x 47 version shapes (7 short, every offset of a 17-character digit string, paddings of 8..300 characters) x 8 probes x 4 operators x 2 placements; '-' and '=' in the bound only", chars.len()));
     {
         // '-' and '=' cannot occur in a package's version (the name splits at the last '-') but
         // they can in a bound, where they are "other characters": ignored
@@ -606,9 +606,23 @@ fn main() {
         run.merge(t);
     }
     par_items(&run, "C01(e) character sweep", &chars, |_, c, t| {
-        let shapes = [
+        let mut shapes = vec![
             format!("{}", c), format!("1{}", c), format!("{}1", c), format!("1{}1", c), format!("1.{}{}", c, c), format!("1{}nb2", c), format!("1nb{}", c),
         ];
+        // the character at every offset of a 17-character digit string (word-at-a-time scanners),
+        // between single digits, and after paddings of 8..300 characters (length-dependent paths)
+        for pos in 0..=16usize {
+            shapes.push(format!("{}{}{}", "1".repeat(pos), c, "2".repeat(16 - pos)));
+        }
+        shapes.push(format!("1{}2{}3{}4{}5", c, c, c, c));
+        shapes.push(format!("2024011{}5", c));
+        shapes.push(format!("12{}30{}45", c, c));
+        for n in [8usize, 31, 33, 70, 300] {
+            shapes.push(format!("{}{}", "1.".repeat(n), c));
+            shapes.push(format!("{}{}", c, ".1".repeat(n)));
+            shapes.push(format!("{}{}{}", "0.".repeat(n / 2), c, ".0".repeat(n / 2)));
+            shapes.push(format!("{}{}1", "a".repeat(n), c));
+        }
         for v in &shapes {
             for p in ["", "1", "1.0", "1a", "1nb1", "2", "1.1", "0"] {
                 t.states += 1;
@@ -617,5 +631,39 @@ fn main() {
             }
         }
     });
+    // (h) long common prefixes: two versions that agree on 15..100 leading bytes and then end in
+    // different short tails (every single token, and modifier / letter / number pairs that share
+    // leading letters), through the four operators and through best_match
+    {
+        let mut tails: Vec<String> = TOKENS.iter().map(|s| s.to_string()).collect();
+        for x in ["b", "beta", "be", "bet", "a", "alpha", "al", "r", "rc", "rc1", "p", "pl", "pre", "pr", "n", "nb", "nb1", "nb2", "0b", "0beta", "0beta1", "1a", "1alpha", "", "0", "00", "1", "2", "10", ".", ".0", ".1", "_", "x", "z"] {
+            tails.push(x.to_string());
+        }
+        tails.sort();
+        tails.dedup();
+        let mut prefixes: Vec<String> = vec![];
+        for n in [15usize, 16, 17, 31, 32, 33, 64, 100] {
+            prefixes.push("1.0.".repeat(n / 4 + 1)[..n].to_string());
+            prefixes.push("1a2b.3rc".repeat(n / 8 + 1)[..n].to_string());
+            prefixes.push(format!("{}0", "9".repeat(n - 1).replace("9999", "9.99")));
+        }
+        run.bound(format!("(h) long common prefixes: {} prefixes of 15..100 bytes x all ordered pairs of {} tails, 4 operators and best_match", prefixes.len(), tails.len()));
+        let star = Pattern::new("p-*").unwrap_or_else(|e| run.fault(&format!("p-*: {}", e)));
+        par_items(&run, "C01(h) common prefixes", &prefixes, |_, pre, t| {
+            let pool = Pool::new(tails.iter().map(|x| format!("{}{}", pre, x)).collect());
+            for i in 0..pool.strs.len() {
+                for j in 0..pool.strs.len() {
+                    t.states += 1;
+                    t.transitions += 1;
+                    if let Some(got) = four_verdicts(t, &pool.strs[i], &pool.strs[j]) {
+                        judge4(&run, t, &pool.strs[i], &pool.strs[j], got, &pool.rank[i], &pool.rank[j], &pool.ascii[i], &pool.ascii[j]);
+                    }
+                }
+                sweep_best(&run, t, &star, &pool, i, i, pool.strs.len());
+                t.nontrivial += 1;
+            }
+            t.outcome("common-prefix/row");
+        });
+    }
     run.finish();
 }
